@@ -111,14 +111,14 @@ def check_c15(pid, tier, seed, replay=None):
     t0 = time.time(); rng = random.Random(seed); q = tier == 'quick'
     bindir = vlib.build('asan')
     with ThreadPoolExecutor(max_workers=2) as ex:
-        f1 = ex.submit(model_check); f2 = ex.submit(gen_histories, seed, 80 if q else 1500, 10 if q else 14)
+        f1 = ex.submit(model_check); f2 = ex.submit(gen_histories, seed, 80 if q else 4000, 10 if q else 14)
         (mc, problems), hists = f1.result(), f2.result()
     extra_viol = []
     for kind, name, txt in problems:
         if kind == 'design':
             os.makedirs(vlib.REPLAY, exist_ok=True); p = os.path.join(vlib.REPLAY, f'{pid}-design-{name}.txt'); open(p, 'w').write(txt)
             extra_viol.append(dict(replay=p, what=f'design-level invariant violated in {name}'))
-    scns = [scn_from_hist(rng, i, h) for i, h in enumerate(hists)] + fam_args(rng, 1200 if q else 40000) + fam_big(rng)
+    scns = [scn_from_hist(rng, i, h) for i, h in enumerate(hists)] + fam_args(rng, 1200 if q else 160000) + fam_big(rng)
     res = run_batch(pid, scns, bindir, 'ench', *TRACE)
     if any(k == 'infra' for k, _, _ in problems): res['infra'].append('TLC failed on EncSetup_MC')
     def nontrivial(s, evs): return any(e.get('e') in ('SetupVbr', 'SetupManaged', 'InitVbr', 'InitManaged') for e in evs)
